@@ -18,6 +18,14 @@
 #define W_CAT(a, b) W_CAT2(a, b)
 #define W_BOC W_CAT(W_BO, c)          /* w_boc, w_bo2c, ...: the same helpers called with literal arguments */
 
+/* every argument expression has a side effect: a helper that became a macro and expands its argument twice is seen */
+#ifndef W_TLS
+#define W_TLS
+#endif
+extern W_TLS unsigned long w_ev; extern unsigned long w_ev_bad; extern const char* w_ev_name;
+#define W_A(x) (w_ev++, (x))
+#define W_CHK(n, name) do { if (w_ev != (n)) { w_ev_bad++; w_ev_name = (name); } w_ev = 0; } while (0)
+
 /* byte-order helpers: returns the helper's result as a register value and
  * stores the result object's memory image (what a memcpy of the object sees)
  * into image[0..n) */
@@ -28,21 +36,21 @@ static void img64(uint8_t* image, uint64_t r) { uint8_t* p = (uint8_t*)&r; for (
 uint64_t W_BO(uint64_t helper, uint64_t x, uint8_t* image)
 {
     switch (helper) {
-    case 0:  { uint16_t r = Avtp_Bswap16((uint16_t)x);   img16(image, r); return r; }
-    case 1:  { uint32_t r = Avtp_Bswap32((uint32_t)x);   img32(image, r); return r; }
-    case 2:  { uint64_t r = Avtp_Bswap64(x);             img64(image, r); return r; }
-    case 3:  { uint16_t r = Avtp_CpuToLe16((uint16_t)x); img16(image, r); return r; }
-    case 4:  { uint32_t r = Avtp_CpuToLe32((uint32_t)x); img32(image, r); return r; }
-    case 5:  { uint64_t r = Avtp_CpuToLe64(x);           img64(image, r); return r; }
-    case 6:  { uint16_t r = Avtp_CpuToBe16((uint16_t)x); img16(image, r); return r; }
-    case 7:  { uint32_t r = Avtp_CpuToBe32((uint32_t)x); img32(image, r); return r; }
-    case 8:  { uint64_t r = Avtp_CpuToBe64(x);           img64(image, r); return r; }
-    case 9:  { uint16_t r = Avtp_LeToCpu16((uint16_t)x); img16(image, r); return r; }
-    case 10: { uint32_t r = Avtp_LeToCpu32((uint32_t)x); img32(image, r); return r; }
-    case 11: { uint64_t r = Avtp_LeToCpu64(x);           img64(image, r); return r; }
-    case 12: { uint16_t r = Avtp_BeToCpu16((uint16_t)x); img16(image, r); return r; }
-    case 13: { uint32_t r = Avtp_BeToCpu32((uint32_t)x); img32(image, r); return r; }
-    case 14: { uint64_t r = Avtp_BeToCpu64(x);           img64(image, r); return r; }
+    case 0: { w_ev = 0; uint16_t r = Avtp_Bswap16(W_A((uint16_t)x)); W_CHK(1, "Avtp_Bswap16"); img16(image, r); return r; }
+    case 1: { w_ev = 0; uint32_t r = Avtp_Bswap32(W_A((uint32_t)x)); W_CHK(1, "Avtp_Bswap32"); img32(image, r); return r; }
+    case 2: { w_ev = 0; uint64_t r = Avtp_Bswap64(W_A(x)); W_CHK(1, "Avtp_Bswap64"); img64(image, r); return r; }
+    case 3: { w_ev = 0; uint16_t r = Avtp_CpuToLe16(W_A((uint16_t)x)); W_CHK(1, "Avtp_CpuToLe16"); img16(image, r); return r; }
+    case 4: { w_ev = 0; uint32_t r = Avtp_CpuToLe32(W_A((uint32_t)x)); W_CHK(1, "Avtp_CpuToLe32"); img32(image, r); return r; }
+    case 5: { w_ev = 0; uint64_t r = Avtp_CpuToLe64(W_A(x)); W_CHK(1, "Avtp_CpuToLe64"); img64(image, r); return r; }
+    case 6: { w_ev = 0; uint16_t r = Avtp_CpuToBe16(W_A((uint16_t)x)); W_CHK(1, "Avtp_CpuToBe16"); img16(image, r); return r; }
+    case 7: { w_ev = 0; uint32_t r = Avtp_CpuToBe32(W_A((uint32_t)x)); W_CHK(1, "Avtp_CpuToBe32"); img32(image, r); return r; }
+    case 8: { w_ev = 0; uint64_t r = Avtp_CpuToBe64(W_A(x)); W_CHK(1, "Avtp_CpuToBe64"); img64(image, r); return r; }
+    case 9: { w_ev = 0; uint16_t r = Avtp_LeToCpu16(W_A((uint16_t)x)); W_CHK(1, "Avtp_LeToCpu16"); img16(image, r); return r; }
+    case 10: { w_ev = 0; uint32_t r = Avtp_LeToCpu32(W_A((uint32_t)x)); W_CHK(1, "Avtp_LeToCpu32"); img32(image, r); return r; }
+    case 11: { w_ev = 0; uint64_t r = Avtp_LeToCpu64(W_A(x)); W_CHK(1, "Avtp_LeToCpu64"); img64(image, r); return r; }
+    case 12: { w_ev = 0; uint16_t r = Avtp_BeToCpu16(W_A((uint16_t)x)); W_CHK(1, "Avtp_BeToCpu16"); img16(image, r); return r; }
+    case 13: { w_ev = 0; uint32_t r = Avtp_BeToCpu32(W_A((uint32_t)x)); W_CHK(1, "Avtp_BeToCpu32"); img32(image, r); return r; }
+    case 14: { w_ev = 0; uint64_t r = Avtp_BeToCpu64(W_A(x)); W_CHK(1, "Avtp_BeToCpu64"); img64(image, r); return r; }
     }
     return 0;
 }
